@@ -56,6 +56,12 @@ def entry_points(program):
                 if pname in TEMPLATE_PARAMS or (
                         func.name in ('__str__', 'filename') and idx == 0):
                     out.append((func, idx, 'formatter'))
+    # fingerprint(obj) consumes obj.data(): every `data(self)` generator of
+    # the package is reached from it by dynamic dispatch
+    for cinfo in program.all_classes():
+        meth = cinfo.methods.get('data')
+        if meth is not None and meth.params == ['self']:
+            out.append((meth, 0, 'fingerprint-data'))
     out.append((program.func('valjean.fingerprint:fingerprint'), 0,
                 'fingerprint'))
     out.append((program.func(
@@ -230,3 +236,418 @@ def check_det(ctx, depth=3):
             ctx.holds('DET', root, f'{root.qual}: no clock / random / '
                       f'process-identity call in {n_funcs} reachable '
                       f'function(s)', at=root.where(), nontrivial=n_funcs > 1)
+
+
+# --------------------------------------------------------- DATA-INPLACE ---
+
+DATA_FIELDS = ('bins', 'values', 'errors', 'columns')
+ARRAY_MUTATORS = {'sort', 'fill', 'put', 'resize', 'partition', 'itemset',
+                  'byteswap', 'setflags', 'append', 'extend', 'insert',
+                  'remove', 'pop', 'clear', 'reverse', 'update',
+                  'setdefault', 'popitem', '__setitem__', '__delitem__',
+                  '__iadd__', '__imul__'}
+ELEMENT_VIEWS = {'values', 'items', 'keys', 'get', '__iter__', 'flat'}
+SAME_ELEMENTS = {'list', 'tuple', 'sorted', 'reversed', 'iter', 'enumerate',
+                 'zip', 'set', 'frozenset', 'chain', 'islice', 'filter',
+                 'next'}
+SAME_OBJECT = {'asarray', 'asanyarray', 'atleast_1d', 'atleast_2d', 'ravel',
+               'reshape', 'squeeze', 'transpose', 'getdata', 'require',
+               'view', 'swapaxes', 'ascontiguousarray'}
+NP_INPLACE_FUNCS = {'put', 'place', 'copyto', 'fill_diagonal', 'putmask',
+                    'shuffle', 'put_along_axis'}
+import re as _re
+_DATA_RE = _re.compile(r'(^|\.)(%s)(\[\*\])*$' % '|'.join(DATA_FIELDS))
+
+
+def _elem_of(pth):
+    """Path of the elements of the container at `pth`; "{q}" is a new
+    container whose elements are at q."""
+    pth = pth.rstrip('~')
+    if pth.startswith('{') and pth.endswith('}'):
+        return pth[1:-1]
+    return pth + '[*]'
+
+
+class _PathScope:
+    """Access paths (rooted at the parameters) of the expressions of one
+    function, through its local aliases: assignment, loop and comprehension
+    targets, enumerate / zip, container copies (same elements) and array
+    views (same object).  A trailing "~" marks a NEW container holding the
+    same elements."""
+
+    def __init__(self, func):
+        self.func = func
+        self.params = set(func.params)
+        self.defs = {}
+        self.rebound_at = {}
+        for stmt in func.node.body:
+            if isinstance(stmt, ast.Assign):
+                for tgt in stmt.targets:
+                    if isinstance(tgt, ast.Name) and tgt.id in self.params:
+                        self.rebound_at.setdefault(tgt.id, stmt.lineno)
+        for node in ast.walk(func.node):
+            if isinstance(node, ast.Assign):
+                for tgt in node.targets:
+                    self._bind(tgt, ('is', node.value))
+            elif isinstance(node, (ast.For, ast.comprehension)):
+                self._bind_iter(node.target, node.iter)
+            elif isinstance(node, ast.NamedExpr):
+                self._bind(node.target, ('is', node.value))
+            elif isinstance(node, ast.With):
+                for item in node.items:
+                    if item.optional_vars is not None:
+                        self._bind(item.optional_vars,
+                                   ('is', item.context_expr))
+            elif isinstance(node, ast.Call) and isinstance(
+                    node.func, ast.Attribute) and isinstance(
+                        node.func.value, ast.Name) and node.args:
+                # a local container filled with append / add / insert /
+                # extend holds (the elements of) what it is given
+                name = node.func.value.id
+                if node.func.attr in ('append', 'add', 'appendleft'):
+                    self.defs.setdefault(name, []).append(
+                        ('holds', node.args[0]))
+                elif node.func.attr == 'insert' and len(node.args) == 2:
+                    self.defs.setdefault(name, []).append(
+                        ('holds', node.args[1]))
+                elif node.func.attr in ('extend', 'update'):
+                    self.defs.setdefault(name, []).append(
+                        ('is', ast.Call(func=ast.Name(id='list',
+                                                      ctx=ast.Load()),
+                                        args=[node.args[0]], keywords=[],
+                                        lineno=node.lineno)))
+
+    def _bind(self, tgt, how):
+        if isinstance(tgt, ast.Name):
+            self.defs.setdefault(tgt.id, []).append(how)
+        elif isinstance(tgt, (ast.Tuple, ast.List)) and how[0] == 'is':
+            for elt in tgt.elts:
+                self._bind(elt, ('elem', how[1]))
+        elif isinstance(tgt, (ast.Tuple, ast.List)):
+            for elt in tgt.elts:
+                self._bind(elt, ('elem2', how[1]))
+        elif isinstance(tgt, ast.Starred):
+            self._bind(tgt.value, how)
+
+    def _bind_iter(self, tgt, it):
+        if isinstance(it, ast.Call) and isinstance(it.func, ast.Name) and \
+                it.func.id == 'enumerate' and it.args and isinstance(
+                    tgt, (ast.Tuple, ast.List)) and len(tgt.elts) == 2:
+            self._bind_iter(tgt.elts[1], it.args[0])
+            return
+        if isinstance(it, ast.Call) and isinstance(it.func, ast.Name) and \
+                it.func.id == 'zip' and isinstance(
+                    tgt, (ast.Tuple, ast.List)) and len(tgt.elts) == len(
+                        it.args):
+            for elt, arg in zip(tgt.elts, it.args):
+                self._bind_iter(elt, arg)
+            return
+        if isinstance(it, ast.Call) and isinstance(
+                it.func, ast.Attribute) and it.func.attr == 'items' and \
+                isinstance(tgt, (ast.Tuple, ast.List)) and \
+                len(tgt.elts) == 2:
+            self._bind(tgt.elts[1], ('elem', it.func.value))
+            return
+        if isinstance(tgt, ast.Name):
+            self.defs.setdefault(tgt.id, []).append(('elem', it))
+        else:
+            self._bind(tgt, ('iter', it))
+
+    def paths(self, expr, seen=frozenset(), at=None):
+        at = at if at is not None else getattr(expr, 'lineno', 0)
+        if isinstance(expr, ast.Name):
+            out = set()
+            if expr.id in self.params and not (
+                    expr.id in self.rebound_at and
+                    at > self.rebound_at[expr.id]):
+                out.add(expr.id)
+            if expr.id in seen:
+                return out
+            for how, src in self.defs.get(expr.id, ()):
+                base = self.paths(src, seen | {expr.id},
+                                  getattr(src, 'lineno', at))
+                for pth in base:
+                    if how == 'is':
+                        out.add(pth)
+                    elif how in ('elem', 'iter'):
+                        out.add(_elem_of(pth))
+                    elif how == 'holds':
+                        out.add('{' + pth.rstrip('~') + '}~')
+                    else:
+                        out.add(_elem_of(_elem_of(pth)))
+            return out
+        if isinstance(expr, ast.Attribute):
+            return {p.rstrip('~') + '.' + expr.attr
+                    for p in self.paths(expr.value, seen, at)}
+        if isinstance(expr, ast.Subscript):
+            if isinstance(expr.slice, ast.Slice):
+                # a slice of an array is a view of the same storage
+                return set(self.paths(expr.value, seen, at))
+            return {_elem_of(p) for p in self.paths(expr.value, seen, at)}
+        if isinstance(expr, ast.Starred):
+            return self.paths(expr.value, seen, at)
+        if isinstance(expr, (ast.List, ast.Tuple, ast.Set)):
+            out = set()
+            for elt in expr.elts:
+                for pth in self.paths(elt, seen, at):
+                    out.add('{' + pth.rstrip('~') + '}~')
+            return out
+        if isinstance(expr, ast.IfExp):
+            return self.paths(expr.body, seen, at) | self.paths(
+                expr.orelse, seen, at)
+        if isinstance(expr, ast.Call):
+            cname = call_name(expr)
+            recv = receiver(expr)
+            if recv is not None and dotted(recv) not in ('np', 'numpy',
+                                                         'np.ma', 'ma'):
+                if cname in ELEMENT_VIEWS:
+                    return {p.rstrip('~') + '~'
+                            for p in self.paths(recv, seen, at)}
+                if cname in SAME_OBJECT:
+                    return set(self.paths(recv, seen, at))
+                return set()
+            if cname in SAME_ELEMENTS and expr.args:
+                return {p.rstrip('~') + '~'
+                        for p in self.paths(expr.args[0], seen, at)}
+            if cname in SAME_OBJECT and expr.args:
+                return set(self.paths(expr.args[0], seen, at))
+        return set()
+
+
+def _mutations(program, func, memo, depth=0):
+    """[(path, what, lineno, chain)] of the in-place modifications of
+    objects reachable from the parameters of func."""
+    if func.key in memo:
+        return memo[func.key]
+    memo[func.key] = []
+    scope = _PathScope(func)
+    out = []
+    # receivers narrowed by an isinstance test somewhere in the function
+    from ..loader import ClassInfo
+    narrowed = {}
+    for node in walk_local(func.node):
+        if isinstance(node, ast.Call) and isinstance(
+                node.func, ast.Name) and node.func.id == 'isinstance' and \
+                len(node.args) == 2:
+            klass = program.resolve_name_expr(func.module, node.args[1],
+                                              func)
+            if isinstance(klass, ClassInfo):
+                narrowed[ast.unparse(node.args[0])] = klass
+
+    def hit(target, what, node, suffix=''):
+        for pth in scope.paths(target, at=node.lineno):
+            if pth.endswith('~'):
+                continue
+            out.append((pth + suffix, what, node.lineno, (func.key,)))
+
+    for node in walk_local(func.node):
+        if isinstance(node, ast.Call):
+            cname = call_name(node)
+            recv = receiver(node)
+            if recv is not None and cname in ARRAY_MUTATORS and dotted(
+                    recv) not in ('np', 'numpy'):
+                hit(recv, f'mutating call {txt(node)[:50]}', node)
+            if recv is not None and dotted(recv) in ('np', 'numpy',
+                                                     'np.random') and \
+                    cname in NP_INPLACE_FUNCS and node.args:
+                hit(node.args[0], f'in-place numpy call {txt(node)[:50]}',
+                    node)
+            for kwd in node.keywords:
+                if kwd.arg == 'out':
+                    hit(kwd.value, f'out= of {txt(node)[:50]}', node)
+            if depth < 12:
+                callees, tag = program.resolve_call(func, node, narrowed)
+                if tag == 'by-unique-name' and (
+                        call_name(node) in effects.NOT_BY_NAME or
+                        call_name(node) in effects.BUILTIN_METHOD_NAMES):
+                    callees = []
+                for callee in callees[:2]:
+                    if callee.module.name.startswith('valjean') and \
+                            callee.key != func.key:
+                        sub = _mutations(program, callee, memo, depth + 1)
+                        cpars = callee.params
+                        off = 1 if cpars[:1] in (['self'], ['cls']) and (
+                            recv is not None or tag == 'ctor') else 0
+                        for pth, what, line, chain in sub:
+                            root = _re.split(r'[.\[~]', pth, 1)[0]
+                            rest = pth[len(root):]
+                            arg = None
+                            if root in cpars:
+                                idx = cpars.index(root) - off
+                                if idx == -1 and tag == 'ctor':
+                                    continue     # the object being built
+                                if idx == -1:
+                                    arg = recv
+                                elif 0 <= idx < len(node.args):
+                                    arg = node.args[idx]
+                                for kwd in node.keywords:
+                                    if kwd.arg == root:
+                                        arg = kwd.value
+                            if arg is None:
+                                continue
+                            for apth in scope.paths(arg, at=node.lineno):
+                                out.append((apth.rstrip('~') + rest, what,
+                                            line, (func.key,) + chain))
+        elif isinstance(node, (ast.Assign, ast.AugAssign)):
+            tgts = node.targets if isinstance(node, ast.Assign) else \
+                [node.target]
+            for tgt in tgts:
+                if isinstance(tgt, ast.Subscript):
+                    hit(tgt.value, f'store {txt(tgt)[:40]} = ...', node)
+                elif isinstance(tgt, ast.Attribute) and \
+                        tgt.attr in DATA_FIELDS:
+                    # the data field of an existing template is replaced
+                    hit(tgt.value, f'store {txt(tgt)[:40]} = ...', node,
+                        suffix='.' + tgt.attr)
+                elif isinstance(tgt, ast.Name) and isinstance(
+                        node, ast.AugAssign) and not effects.\
+                        _immutable_operand(node.value):
+                    for pth in scope.paths(tgt, at=node.lineno):
+                        # an element of a values / errors array may be a
+                        # scalar; an element of bins is the array of a
+                        # dimension; the field itself is an array
+                        if pth.endswith('~'):
+                            continue
+                        if not pth.endswith('[*]') or _re.search(
+                                r'(^|\.)bins\[\*\]$', pth):
+                            out.append((pth, f'in-place {txt(node)[:50]}',
+                                        node.lineno, (func.key,)))
+        elif isinstance(node, ast.Delete):
+            for tgt in node.targets:
+                if isinstance(tgt, ast.Subscript):
+                    hit(tgt.value, f'del {txt(tgt)[:40]}', node)
+    memo[func.key] = out
+    return out
+
+
+def _call_site_origins(program, funcs):
+    """{(callee key, parameter): set of origins of the arguments at the call
+    sites found in `funcs`}: "param" (reachable from a parameter of the
+    caller), "fresh" (constructor call, copy, literal, comprehension) or
+    "unknown"."""
+    from ..loader import ClassInfo
+    out = {}
+    for func in funcs:
+        scope = _PathScope(func)
+        narrowed = {}
+        for node in walk_local(func.node):
+            if isinstance(node, ast.Call) and isinstance(
+                    node.func, ast.Name) and node.func.id == 'isinstance' \
+                    and len(node.args) == 2:
+                klass = program.resolve_name_expr(func.module, node.args[1],
+                                                  func)
+                if isinstance(klass, ClassInfo):
+                    narrowed[ast.unparse(node.args[0])] = klass
+
+        def origin(expr, depth=0):
+            if scope.paths(expr):
+                return 'param'
+            if isinstance(expr, (ast.List, ast.Tuple, ast.Dict, ast.Set,
+                                 ast.ListComp, ast.DictComp, ast.SetComp,
+                                 ast.Constant, ast.GeneratorExp)):
+                return 'fresh'
+            if isinstance(expr, ast.Call):
+                res = program.resolve_name_expr(func.module, expr.func, func)
+                if isinstance(res, ClassInfo):
+                    return 'fresh'
+                if call_name(expr) in ('copy', 'deepcopy'):
+                    return 'fresh'
+                return 'unknown'
+            if isinstance(expr, ast.Name) and depth < 4:
+                defs = scope.defs.get(expr.id)
+                if defs and all(how == 'is' for how, _ in defs):
+                    kinds = {origin(src, depth + 1) for _, src in defs}
+                    if kinds == {'fresh'}:
+                        return 'fresh'
+            return 'unknown'
+
+        for node in walk_local(func.node):
+            if not isinstance(node, ast.Call):
+                continue
+            callees, tag = program.resolve_call(func, node, narrowed)
+            if tag == 'by-unique-name':
+                continue
+            recv = receiver(node)
+            for callee in callees[:2]:
+                cpars = callee.params
+                off = 1 if cpars[:1] in (['self'], ['cls']) and (
+                    recv is not None or tag == 'ctor') else 0
+                if off and recv is not None and tag != 'ctor':
+                    out.setdefault((callee.key, cpars[0]), set()).add(
+                        origin(recv))
+                for idx, arg in enumerate(node.args):
+                    if isinstance(arg, ast.Starred):
+                        for par in cpars[idx + off:]:
+                            out.setdefault((callee.key, par), set()).add(
+                                origin(arg.value))
+                        break
+                    if idx + off < len(cpars):
+                        out.setdefault((callee.key, cpars[idx + off]),
+                                       set()).add(origin(arg))
+                for kwd in node.keywords:
+                    if kwd.arg in cpars:
+                        out.setdefault((callee.key, kwd.arg), set()).add(
+                            origin(kwd.value))
+    return out
+
+
+def check_data_inplace(ctx):
+    """The templates produced by the representers keep the LIVE arrays of
+    the datasets (CurveElements.values / errors / bins, TableTemplate.columns
+    are references, not copies), and the plot representers and their
+    post-treatment are reached by dynamic dispatch (getattr, self.post) that
+    no call graph sees.  Rule: no function of valjean.javert modifies in
+    place an object whose access path from one of its parameters ends in one
+    of those data fields (or a parameter named like one): sort / fill / put /
+    subscript store / augmented assignment / out= / numpy in-place functions,
+    directly or through a callee of the package.  LIVE is itself checked:
+    some representer returns templates that share objects with its result."""
+    program = ctx.program
+    memo = {}
+    funcs = [f for f in program.all_functions()
+             if f.module.name.startswith('valjean.javert') and
+             f.parent is None]
+    ctx.floor('DATA-INPLACE', len(funcs), 150, 'functions of valjean.javert')
+    bad = 0
+    sites = _call_site_origins(program, funcs)
+    for func in funcs:
+        program.consulted.add(func.module.relpath)
+        seen = set()
+        for pth, what, line, chain in _mutations(program, func, memo):
+            if not _DATA_RE.search(pth):
+                continue
+            root = _re.split(r'[.\[~]', pth, 1)[0]
+            origins = sites.get((func.key, root))
+            if origins and origins <= {'fresh'}:
+                # every caller in the package hands a template it has just
+                # built (constructor, copy, literal): nothing is shared yet
+                continue
+            if root in ('self', 'cls') and func.name == '__init__':
+                continue
+            # a template class managing its OWN containers (join / append of
+            # columns into self) is not a post-hoc modification of data
+            if root == 'self' and func.cls is not None and \
+                    func.module.name == 'valjean.javert.templates':
+                continue
+            key = (pth, what)
+            if key in seen:
+                continue
+            seen.add(key)
+            bad += 1
+            where = chain[-1]
+            ctx.violated(
+                'DATA-INPLACE', func,
+                f'{func.name}: {what} modifies `{pth}`',
+                at=f'{program.func(where).module.relpath}:{line}',
+                detail={'path': pth, 'through': list(chain),
+                        'why': 'templates and their helpers receive the '
+                               'live arrays of the datasets: an in-place '
+                               'modification changes the inputs (and the '
+                               'fingerprint) of the test that was '
+                               'represented'})
+    if not bad:
+        ctx.holds('DATA-INPLACE', 'valjean.javert',
+                  f'{len(funcs)} functions: no in-place modification of an '
+                  f'object reached through a data field '
+                  f'({", ".join(DATA_FIELDS)}) of a parameter',
+                  nontrivial=True)
